@@ -955,6 +955,30 @@ Definition init (o : list resp) : st := mkst o [] LSBInit_SUCCESS [].
 Definition run_line (e : env) (l : string) (o : list resp) : list line * Z * list call :=
   let s := onecmd_st e l (init o) in (rev (out s), ex s, rev (calls s)).
 
+(* ---------------------------------------------------------------------- main() *)
+(* main(): options.realize(argv); c = Controller(options);
+     if options.args: c.onecmd(" ".join(options.args)); sys.exit(c.exitstatus)
+     if options.interactive: c.exec_cmdloop(...); sys.exit(0)
+   With an action on the command line - with or without -i/--interactive - the action
+   is run once by onecmd and the process exits with Controller.exitstatus; the
+   interactive loop (whose exit status is always 0) starts only when no action is
+   given.  (onecmd itself is modelled for options.interactive false; with -i it differs
+   only in the 401 retry and the shutdown/reload confirmation prompts.) *)
+Fixpoint join_sp (ws : list string) : string :=
+  match ws with
+  | [] => ""
+  | [w] => w
+  | w :: r => w ++ " " ++ join_sp r
+  end.
+Inductive main_outcome :=
+| MainExit (ls : list line) (status : Z) (cs : list call)   (* sys.exit(status) after one onecmd *)
+| MainLoop.                                                  (* the interactive shell; exits 0 *)
+Definition main_run (e : env) (words : list string) (o : list resp) : main_outcome :=
+  match words with
+  | [] => MainLoop
+  | _ => let '(ls, status, cs) := run_line e (join_sp words) o in MainExit ls status cs
+  end.
+
 (* ---------------------------------------------------- correspondence checks *)
 Definition arg_eqb (a b : arg) : bool :=
   match a, b with
@@ -988,3 +1012,15 @@ Definition check_case (c : ctl_case) : bool :=
   let '(url, enc, l, o, lines, status, cs) := c in
   let '(ml, ms, mc) := run_line {| e_url := url; e_enc := enc |} l o in
   list_eqb' line_eqb ml lines && (ms =? status) && list_eqb' call_eqb mc cs.
+
+(* main(argv) of the implementation: (url, words after the options, script, printed, the code
+   passed to sys.exit, calls) *)
+Definition main_case := (string * list string * list resp * list line * Z * list call)%type.
+Definition mkmain (u : string) (w : list string) (o : list resp) (ls : list line) (z : Z) (c : list call)
+  : main_case := (u, w, o, ls, z, c).
+Definition check_main_case (c : main_case) : bool :=
+  let '(url, words, o, lines, status, cs) := c in
+  match main_run {| e_url := url; e_enc := None |} words o with
+  | MainExit ml ms mc => list_eqb' line_eqb ml lines && (ms =? status) && list_eqb' call_eqb mc cs
+  | MainLoop => false
+  end.
